@@ -412,9 +412,15 @@ def load(prog: Dict[str, Any], source: Optional[str] = None, reset: bool = True)
     served the method compiled for an earlier, differently ordered program (that staleness is
     C09's subject and must not leak into the other properties)."""
     if reset:
+        import typing
+
         import apischema.cache
 
         apischema.cache.reset()
+        # typing memoizes subscriptions by argument *equality*: after List[Union[str, bool]] was built once,
+        # List[Union[bool, str]] evaluates to that same object (alternatives in the former order)
+        for clear in getattr(typing, "_cleanups", ()):
+            clear()
     if source is None:
         source = render(prog)
     name = f"vgen_{next(_counter)}"
